@@ -650,7 +650,46 @@ def rule_i(ctx, out):
         raise AnalysisError(f"only {n} cases enumerated")
 
 
+def rule_j(ctx, out):
+    """unify_loads_instructions merges two loads of the same address into one; that is sound only if no write between them may touch
+    the loaded location (a word store, a *byte* store, a store at a may-alias symbolic address).  The function is interpreted on every
+    access sequence of a finite family (byte stores included) and the sequence before and after is run on the reference memory model
+    under the address grid: what every load's consumer sees must not change."""
+    from ..core import memrules as mr
+    entry = f"{GO}.unify_loads_instructions"
+    eng = mr.MemEngine(ctx, entry, GO, args=lambda work, location: (work, location))
+    total = {"sequences": 0, "rewritten": 0}
+    fails = []
+    for loc in ("memory", "storage"):
+        addrs = ["s(0)", "s(1)", "32"] if loc == "memory" else ["s(0)", "s(1)", "1"]
+        st, fl = mr.examine(eng, loc, (s_ for s_ in mr.sequences(loc, 3, addrs, ["s(2)"], loc == "memory", False)
+                                      if sum(1 for e in s_ if e[0][-1].startswith(("mload", "sload"))) >= 2))
+        for k in total:
+            total[k] += st[k]
+        fails += [(loc, s_, r) for s_, r in fl]
+    out.info["load_unification"] = dict(total, address_grid=mr.GRID)
+    if total["rewritten"] < 10:
+        raise AnalysisError(f"unify_loads_instructions merged loads in only {total['rewritten']} sequences of the family")
+    seen = set()
+    for loc, seq, r in sorted(fails, key=lambda t: (t[0], len(t[1]), t[1])):
+        kinds = ("mstore8", "mstore", "mload", "sstore", "sload", "keccak256")
+        between = sorted({next((k for k in kinds if e.startswith(k)), e.split("(")[0]) for e in seq.split(" ; ")[1:-1]}) or ["nothing"]
+        key = (loc, r["mismatch"]["kind"], tuple(between))
+        if key in seen:
+            out.instances += 1
+            continue
+        seen.add(key)
+        out.bad(f"load-unification:{loc}:across-{'+'.join(between)}:{r['mismatch']['kind']}", f"unify_loads_instructions rewrites [{seq}] into "
+                f"[{r['mismatch'].get('after', '?')}]: {r['mismatch'].get('what')}" + (f" when the addresses are {r['mismatch']['addresses']}" if r['mismatch'].get('addresses') else ""),
+                where(ctx.func(entry)), {"sequence": seq, "mismatch": r["mismatch"]})
+    good = total["rewritten"] - len(fails)
+    out.instances += good
+    out.satisfied += good
+    out.samples.append({"sequences_examined": total["sequences"], "merged_and_equivalent": good})
+
+
 RULES = [
+    ("C02.j", "merging two loads of one address needs no possibly-overlapping write between them (byte stores included)", 10, rule_j),
     ("C02.i", "exactly the dead loads leave the access order", 150, rule_i),
     ("C02.h", "memory/storage simplification preserves the access sequence's effect", 500, rule_h),
     ("C02.g", "different address terms are dependent", 10, rule_g),
